@@ -181,6 +181,70 @@ def gfile_text(inp):
     return buf.getvalue()
 
 
+GEOM_FIELDS = ("hy", "Bpxy", "Btxy", "Bxy", "psixy", "dphidy", "zShift", "poloidal_distance", "g11", "g22", "g33",
+               "g12", "g13", "g23", "J", "g_11", "g_22", "g_33", "g_12", "g_13", "g_23", "curl_bOverB_x",
+               "curl_bOverB_y", "curl_bOverB_z")
+
+
+def history_record(mesh, with_geometry):
+    """observable state of a mesh: positions at all four locations; optionally the derived
+    geometry, computed on a copy so that the explored state itself is not disturbed"""
+    import dill
+
+    rec = {}
+    for r in mesh.regions.values():
+        rec[r.myID] = dict(name=r.name, Rxy=mla_dump(r.Rxy), Zxy=mla_dump(r.Zxy),
+                           psi_vals=np.array(r.psi_vals),
+                           xPointsAtStart=[None if p is None else (p.R, p.Z) for p in r.equilibriumRegion.xPointsAtStart],
+                           xPointsAtEnd=[None if p is None else (p.R, p.Z) for p in r.equilibriumRegion.xPointsAtEnd],
+                           nx=r.nx, ny=r.ny, radialIndex=r.radialIndex)
+    if with_geometry:
+        m2 = dill.loads(dill.dumps(mesh))
+        m2.geometry()
+        for r in m2.regions.values():
+            rec[r.myID]["fields"] = {k: mla_dump(getattr(r, k)) for k in GEOM_FIELDS if hasattr(r, k)}
+    opts = dict(mesh.equilibrium.nonorthogonal_options)
+    return dict(regions=rec, nonorthogonal_options=opts, user_options=dict(mesh.user_options),
+                eq_user_options=dict(mesh.equilibrium.user_options))
+
+
+def run_history(c, eq, outdir, meta):
+    """E2: breadth-first exploration of redistributePoints histories from one start state with
+    dill snapshots of the live mesh.  c["alphabet"]: list of settings dicts; c["first"]: indices
+    of the first transitions explored by this process; c["depth"]."""
+    import dill
+    from hypnotoad.core.mesh import BoutMesh
+
+    mesh = BoutMesh(eq, dict(c["options"]))
+    mesh.calculateRZ()
+    root = dill.dumps(mesh)
+    meta["snapshot_bytes"] = len(root)
+    out = {(): history_record(mesh, True)}
+    alphabet = c["alphabet"]
+    frontier = [((), root)]
+    for depth in range(1, c["depth"] + 1):
+        nxt = []
+        for hist, snap in frontier:
+            for k, settings in enumerate(alphabet):
+                if depth == 1 and k not in c["first"]:
+                    continue
+                h = hist + (k,)
+                m = dill.loads(snap)
+                try:
+                    m.redistributePoints(dict(settings))
+                    m.calculateRZ()
+                except Exception as e:  # noqa: BLE001 - a refusal is an observable outcome
+                    out[h] = dict(refused="%s: %s" % (type(e).__name__, str(e)[:300]))
+                    continue
+                out[h] = history_record(m, True)
+                if depth < c["depth"]:
+                    nxt.append((h, dill.dumps(m)))
+        frontier = nxt
+    with open(os.path.join(outdir, "history.pkl"), "wb") as f:
+        pickle.dump(out, f, protocol=4)
+    meta["histories"] = len(out)
+
+
 def run_config(config, outdir):
     c = families.normalise(config)
     meta = dict(config=c, stages={}, outcome=None)
@@ -196,7 +260,11 @@ def run_config(config, outdir):
         stage = "equilibrium"
         eq = build_equilibrium(c, inp, side_extra)
         meta["stages"]["equilibrium"] = time.time() - t0
-        if c["kind"] == "equilibrium":
+        if c["kind"] == "history":
+            stage = "history"
+            run_history(c, eq, outdir, meta)
+            meta["outcome"] = "ok"
+        elif c["kind"] == "equilibrium":
             side = dump_side(eq, None, side_extra)
             with open(os.path.join(outdir, "side.pkl"), "wb") as f:
                 pickle.dump(side, f, protocol=4)
